@@ -8,6 +8,7 @@ import (
 	"encoding/hex"
 	"fmt"
 	"io"
+	"net/http"
 	"os"
 	"path/filepath"
 	"sort"
@@ -23,9 +24,11 @@ import (
 	"oras.land/oras-go/v2/content/file"
 	"oras.land/oras-go/v2/content/memory"
 	"oras.land/oras-go/v2/content/oci"
+	"oras.land/oras-go/v2/registry/remote"
 	"pgregory.net/rapid"
 
 	"verif/harness/gen"
+	"verif/harness/regmodel"
 	"verif/harness/vt"
 )
 
@@ -58,6 +61,9 @@ type Case struct {
 	ForceCAS     bool   `json:"forceCAS,omitempty"`
 	IgnoreNoName bool   `json:"ignoreNoName,omitempty"`
 	Mid          string `json:"mid"`
+	// Pack: how the files are packed: "" = PackManifest v1.1, "v1.0", "artifact"
+	// (the deprecated oras.Pack: OCI artifact manifest), "pack-image" (oras.Pack, image manifest)
+	Pack string `json:"pack,omitempty"`
 }
 
 var names = []string{"a", "b.txt", "with space", "дир-目录", ".hidden", "Makefile", strings.Repeat("long-name-", 11), "x_y", "é"}
@@ -118,7 +124,8 @@ func genTree(t *rapid.T) []FNode {
 }
 
 func genCase(t *rapid.T) Case {
-	c := Case{Mid: rapid.SampledFrom([]string{"memory", "oci", "file"}).Draw(t, "mid")}
+	c := Case{Mid: rapid.SampledFrom([]string{"memory", "oci", "file", "remote"}).Draw(t, "mid")}
+	c.Pack = rapid.SampledFrom([]string{"", "", "v1.0", "artifact", "pack-image"}).Draw(t, "pack")
 	c.Reproducible = rapid.Bool().Draw(t, "reproducible")
 	c.Preserve = rapid.Bool().Draw(t, "preserve")
 	c.SkipUnpack = rapid.IntRange(0, 4).Draw(t, "skipUnpack") == 0
@@ -138,6 +145,15 @@ func genCase(t *rapid.T) Case {
 		}
 		if rapid.IntRange(0, 3).Draw(t, "customMT") == 0 {
 			it.MT = "application/vnd.verif.custom"
+		}
+		if !it.IsDir && rapid.IntRange(0, 2).Draw(t, "twin") == 0 {
+			// the same bytes (and media type) as an earlier single-file item, under another name
+			for _, prev := range c.Items {
+				if !prev.IsDir {
+					it.File.Size, it.File.Seed, it.MT = prev.File.Size, prev.File.Seed, prev.MT
+					break
+				}
+			}
 		}
 		c.Items = append(c.Items, it)
 	}
@@ -256,6 +272,17 @@ func newStore(kind, dir string) (oras.Target, func(), error) {
 			return nil, nil, err
 		}
 		return s, func() { s.Close() }, nil
+	case "remote":
+		// a registry (model) as the intermediate store: its response bodies end the
+		// way net/http bodies do (last bytes together with io.EOF)
+		reg := regmodel.New("mid.test", regmodel.Profile{AcceptRanges: true})
+		reg.Repo("mid/repo")
+		repo, err := remote.NewRepository("mid.test/mid/repo")
+		if err != nil {
+			return nil, nil, err
+		}
+		repo.Client = &http.Client{Transport: reg}
+		return repo, func() {}, nil
 	}
 	return memory.New(), func() {}, nil
 }
@@ -338,7 +365,17 @@ func runInner(c Case) (res vt.Result, fail *vt.Fail) {
 		}
 		layers = append(layers, d)
 	}
-	manifest, err := oras.PackManifest(ctx, src, oras.PackManifestVersion1_1, "application/vnd.verif.roundtrip", oras.PackManifestOptions{Layers: layers})
+	var manifest ocispec.Descriptor
+	switch c.Pack {
+	case "v1.0":
+		manifest, err = oras.PackManifest(ctx, src, oras.PackManifestVersion1_0, "application/vnd.verif.roundtrip", oras.PackManifestOptions{Layers: layers})
+	case "artifact":
+		manifest, err = oras.Pack(ctx, src, "application/vnd.verif.roundtrip", layers, oras.PackOptions{})
+	case "pack-image":
+		manifest, err = oras.Pack(ctx, src, "application/vnd.verif.roundtrip", layers, oras.PackOptions{PackImageManifest: true})
+	default:
+		manifest, err = oras.PackManifest(ctx, src, oras.PackManifestVersion1_1, "application/vnd.verif.roundtrip", oras.PackManifestOptions{Layers: layers})
+	}
 	if err != nil {
 		return res, vt.Failf("C12/pack-failed", "%v", err)
 	}
@@ -378,7 +415,7 @@ func runInner(c Case) (res vt.Result, fail *vt.Fail) {
 	}
 	same := sameContentItems(c.Items)
 	res.NonTrivial = (nested && special) || same
-	res.Classes = []string{"mid-" + c.Mid}
+	res.Classes = []string{"mid-" + c.Mid, "pack-" + c.Pack}
 	if same {
 		res.Classes = append(res.Classes, "two-names-same-bytes")
 	}
